@@ -76,7 +76,8 @@ def units(tier, seed):
             us.append({"part": "focus", "type": ft, "chunk": ci, "of": nchunk})
     for i in range(8):
         us.append({"part": "chain", "shard": i, "of": 8})
-    us.append({"part": "class-level"})
+    for k in range(9):
+        us.append({"part": "class-level", "shard": k})
     us.append({"part": "configs"})
     return us
 
@@ -223,10 +224,18 @@ def check_classlevel_case(case):
         body.__module__ = G.MODNAME
         args = [[L[j] for j in it] if isinstance(it, list) else L[it] for it in case["decl"]]
         kw = {"optional": [L[j] for j in case["opt"]]} if case["opt"] else {}
+        form = case.get("form", "positional")
+        if form == "optional-not-a-list" and len(case["opt"]) == 1:
+            kw = {"optional": L[case["opt"][0]]}              # documented convenience: a single component instead of a list
+        if form == "requires-keyword":
+            kw["requires"] = args                               # the deprecated spelling requires=[...]
+            args = []
+        if form == "optional-empty-list":
+            kw.setdefault("optional", [])
         implicit(*args, **kw)(body)
         focus = body
         broker = dr.run(dr.get_dependency_graph(body), g.make_broker())
-        present = [o not in ("skip", "content", "error", "disabled") for o in case["leaves"]]
+        present = [o not in ("skip", "content", "error", "disabled") for o in case["leaves"]]     # "zero" is present
         req = list(case["implicit_req"]) + [it for it in case["decl"] if not isinstance(it, list)]
         grp = [it for it in case["decl"] if isinstance(it, list)]
         miss = ([j for j in req if not present[j]], [gr for gr in grp if not any(present[j] for j in gr)])
@@ -256,6 +265,9 @@ def check_classlevel_case(case):
         if focus is not None:
             G.cleanup_components([focus])
         g.cleanup()
+        # the per-case ComponentType subclass must not stay in the by-type table (registration scans every known type)
+        for k in [k for k in dr.COMPONENTS_BY_TYPE if k.__name__ == "implicit" and k.__module__ == __name__]:
+            del dr.COMPONENTS_BY_TYPE[k]
 
 
 # ---- enable / disable configuration ------------------------------------------------------------
@@ -378,12 +390,15 @@ def run_unit(unit, tier):
             _run(res, case)
         return res
     if part == "class-level":
-        for ireq, iopt in itertools.product([[], [0], [0, 1]], [[], [2], [1]]):
+        for ireq, iopt in list(itertools.product([[], [0], [0, 1]], [[], [2], [1]]))[unit["shard"]:unit["shard"] + 1]:
             for d in decls(1 if tier == "quick" else 2):
-                for opt in ([], [2]):
-                    for vec in itertools.product(["value", "skip", "disabled"], repeat=3):
+                for opt, form in (([], "positional"), ([2], "positional"), ([2], "optional-not-a-list"), ([], "optional-empty-list"),
+                                  ([2], "requires-keyword")):
+                    if form == "requires-keyword" and not d:
+                        continue
+                    for vec in itertools.product(["value", "skip", "zero", "disabled"], repeat=3):
                         case = {"kind": "classlevel", "implicit_req": ireq, "implicit_opt": iopt, "decl": d, "opt": opt,
-                                "leaves": list(vec)}
+                                "leaves": list(vec), "form": form}
                         try:
                             vio = check_classlevel_case(case)
                         except Exception as ex:
